@@ -22,7 +22,9 @@ def _run_one(args):
         r = sockharness.run_script([tuple(op) for op in script], gen=gen)
     except Exception as e:  # noqa: BLE001
         return {"error": "%s: %s" % (type(e).__name__, e)}
-    return {"obs": sockobs.observable(r), "steps": r["steps"], "census": r["census"]}
+    bg = [e for st in r["steps"] for e in st["events"] if e[0] in ("bgException",)]
+    return {"obs": sockobs.observable(r), "steps": r["steps"], "census": r["census"], "delivered": r.get("delivered", []),
+            "unhandled": r.get("unhandled", []), "bg": bg}
 
 
 _POOL = None
@@ -92,6 +94,14 @@ def judge_family(ctx, prop_key, items, monitors, gen=4, applies=None, nontrivial
             if not ok and (applies is None or applies(m, fam)):
                 if m not in failures or len(script) < len(failures[m][0]):
                     failures[m] = (script, r["obs"])
+    # an exception that escapes a background task (connect / read loop) or reaches the loop's exception handler
+    for (fam, script, r) in good:
+        if r.get("bg") or r.get("unhandled"):
+            ctx.violation("%s:unhandled-exception" % prop_key,
+                          "an exception escaped a task of the client on script %s: %s %s" % (json.dumps(script), r.get("bg"), r.get("unhandled")),
+                          kind="history", monitor="unhandled", script=script, gen=gen, implementation_output=r["obs"],
+                          spec_verdict="no exception may escape the receive / connect tasks")
+            break
     for m, (script, obs) in failures.items():
         def still(c, m=m):
             rr = _run_one((c, gen))
